@@ -7,6 +7,7 @@
 // ASSUME: BulkSynchronous: no push after pop() returned empty (isEmpty is sticky by design; one worker without abort-retries never does that)
 // OB: ob_lv_bulksync tier=quick solver=cadical unwind=32 timeout=600 cbmc="--max-field-sensitivity-array-size 700" params=5 bounds="BulkSynchronous<ChunkFIFO<2,Item>, Item, true>, 1 thread, real CountingBarrier(1): 5 programs (table SEQ_BSP) of 6..9 steps: push_initial of 2 items, then pop / push 1 child / push 2 children (range) of the item popped last; up to 4 rounds; payloads symbolic" desc="every popped item belongs to the OLDEST round that still has a queued item (no round r+1 item starts while a round r item is queued); each pushed item is popped exactly once; pop returns empty only when nothing is queued"
 // OB: ob_lv_obim_barrier tier=quick solver=cadical unwind=32 timeout=600 cbmc="--max-field-sensitivity-array-size 700" params=6,2 bounds="OrderedByIntegerMetric<.., ChunkFIFO<2,Item>, BSP, UseBarrier=true>, ascending and descending (levels mirrored), 1 thread: 6 programs (table SEQ_LV) of 5..8 steps: initial items on 2 levels, then pop / push a child at the same level / one level less urgent / (rows 4,5) one level MORE urgent; payloads symbolic" desc="pop() does not leave the current level while it is non-empty: a popped item has the level of the item popped before it if that level still has queued items, otherwise the most urgent queued level; with monotone programs (rows 0-3) the pop sequence is therefore level-sorted; each pushed item is popped exactly once; empty() is true only when nothing is queued; after every push(i): scanStart <= i in the comparator's order"
+// OB: ob_lv_obim_align tier=quick solver=cadical unwind=32 timeout=600 cbmc="--max-field-sensitivity-array-size 700" params=3,3,2 bounds="OrderedByIntegerMetric<.., BSP, UseBarrier=true>, ascending and descending, TWO pool threads (the barrier object has one participant; thread 1 pushes through the real code and its proposal - hasWork, curIndex, current - is written as the first half of its empty() writes it, its item stays in the shared bucket; thread 0 runs the real empty()): thread 1 holds one item on level a, thread 0 one on level b, all 9 (a,b) pairs; payloads symbolic" desc="level alignment in empty(): the caller ends on the MOST URGENT level proposed by any thread in the comparator's order, with that level's bucket as current, and reports work"
 // OB: ob_lv_backscan tier=quick solver=cadical unwind=32 timeout=600 cbmc="--max-field-sensitivity-array-size 700" params=4,2 bounds="OrderedByIntegerMetric<.., ChunkFIFO<2,Item>, BSP=true, UseBarrier=false>, ascending and descending, 1 thread: 4 kind sequences (table SEQ_O rows 0..3) of 6..7 ops from {push into level 0/1/2, pop, range push across levels}" desc="back-scan prevention post-condition: after every push(i) the pusher's scanStart is <= i and <= curIndex in the comparator's order (the bucket stays reachable by the next slowPop of its pusher); conservation as in C01"
 #include "C01_obim_common.h"
 #include "galois/worklists/BulkSynchronous.h"
@@ -202,6 +203,50 @@ struct LvRun {
   }
 };
 
+
+// ---------------------------------------------------------------- 2b. level alignment across threads in empty()
+template <bool DESC>
+struct AlignRun {
+  typedef c01::Obim<ChunkFIFO<2, Item>, 0, true, true, false, DESC> WL;
+  static void run(unsigned a, unsigned b) {
+    unsigned so[vfenv::MAXT] = {0, 0, 0, 0, 0, 0, 0, 0};
+    vfenv::init_pool(2, so);
+    vfenv::init_storage();
+    galois::runtime::activeThreads = 1; // the barrier object gets ONE participant: each wait() returns at once
+    vfenv::enter(0);
+    WL& wl = *new WL();
+    galois::runtime::activeThreads = 2; // the alignment loop looks at both threads
+    Item i1, i0;
+    c01::item_in(i1, a);
+    c01::item_in(i0, b);
+    vfenv::enter(1);
+    wl.push(i1);
+    vfenv::enter(0);
+    wl.push(i0);
+    // thread 1's proposal, written as the first half of its empty() writes it (hasWork, curIndex = level of the item it
+    // holds, current = that level's bucket); thread 1 cannot call empty() itself here: the one-participant barrier
+    // object has no slot for it
+    vfenv::enter(1);
+    auto& p1 = *wl.data.getLocal();
+    wl.updateLocal(p1);
+    p1.hasWork  = true;
+    p1.curIndex = (int)a;
+    p1.current  = p1.local[(int)a];
+    VF_CHECKM(p1.current != nullptr, "the pusher does not know the bucket it pushed into");
+    vfenv::enter(0);
+    bool e0 = wl.empty(); // thread 0 proposes level b and aligns with thread 1's proposal
+    VF_CHECKM(!e0, "empty() reported no work while items are queued");
+    auto& p0  = *wl.data.getLocal();
+    int best  = DESC ? (a > b ? a : b) : (a < b ? a : b);
+    VF_CHECKM(p0.curIndex == best, "after empty() the caller is not on the most urgent level proposed by the threads");
+    VF_CHECKM(p0.current == (best == (int)a ? p1.current : p0.local[best]), "after empty() the caller's current bucket is not the bucket of the aligned level");
+    // the caller's next pop() may only hand out an item of the aligned level
+    galois::optional<Item> r = wl.pop();
+    if (r) VF_CHECKM(r->bucket == best, "pop after the alignment returned an item of a less urgent level");
+    if ((int)b == best) VF_CHECKM((bool)r && r->payload == i0.payload, "the caller holds an item of the aligned level but pop() did not return it");
+  }
+};
+
 // ---------------------------------------------------------------- 3. back-scan prevention post-condition
 template <bool DESC>
 struct BsRun {
@@ -254,6 +299,12 @@ OB(lv_obim_barrier) {
     LvRun<false>::program(s);
   else
     LvRun<true>::program(s);
+}
+OB(lv_obim_align) {
+  if (vf_param(2) == 0)
+    AlignRun<false>::run(vf_param(0), vf_param(1));
+  else
+    AlignRun<true>::run(vf_param(0), vf_param(1));
 }
 OB(lv_backscan) {
   const unsigned char* s = c01::SEQ_O[vf_param(0) < 6 ? vf_param(0) : 0];
